@@ -450,6 +450,12 @@ def run_a11(chk, A11, repo):
         if pw is None or len(pw.args) != 2 or not all(isinstance(a, ast.Tuple) and len(a.elts) == 2 for a in pw.args):
             raise AnalysisError(f'A11: {name} is not a two-branch Piecewise')
         (val, cond), (other, dflt) = (a.elts for a in pw.args)
+        # local temporaries between the operands and the Piecewise (a parametrised helper that was expanded) are resolved
+        from sa import reach as _reach
+        _cfg = CFG(f.node)
+        _at = _reach.node_containing(_cfg, pw)
+        if _at is not None:
+            val, cond, other, dflt = (_reach.expand_expr(_cfg, _at, e_) for e_ in (val, cond, other, dflt))
         got = {'guard': norm(cond), 'value': norm(val), 'else': norm(other)}
         exp = {k: v.replace('x', x).replace(' ', '') for k, v in want.items()}
         exp = {k: v.replace('e' + x + 'p', 'exp') for k, v in exp.items()}      # 'exp' contains the letter x
@@ -482,7 +488,10 @@ def run_a12(chk, A12, repo):
         if not sym:
             continue
         m, a, b = sorted(sym)[0]
-        consumes = any(isinstance(s_, ast.AugAssign) and isinstance(s_.op, ast.Add) for s_ in loop.body)
+        # the stored value is read from a sequence by position (a counter advanced in the body, or an enumerate offset)
+        consumes = any(isinstance(s_, ast.AugAssign) and isinstance(s_.op, ast.Add) for s_ in loop.body) or any(
+            isinstance(x, ast.Subscript) and isinstance(x.ctx, ast.Load) for s_ in loop.body if isinstance(s_, ast.Assign)
+            for x in ast.walk(s_.value))
         if not consumes:
             continue
         # the nest: this loop and the enclosing loops that bind a / b
@@ -499,6 +508,25 @@ def run_a12(chk, A12, repo):
             cur = parent
         size_names = {x.id for l_ in nest for x in ast.walk(l_.iter) if isinstance(x, ast.Name)} - \
             {x.id for l_ in nest for x in ast.walk(l_.target) if isinstance(x, ast.Name)}
+        # a loop header that names a local iterable built just before (`pairs = ((r, c) for r in ..); for .. in pairs`)
+        import copy as _copy
+        local_iters = {}
+        for nm in list(size_names):
+            defs = [s_.value for s_ in ast.walk(f.node) if isinstance(s_, ast.Assign) and len(s_.targets) == 1
+                    and isinstance(s_.targets[0], ast.Name) and s_.targets[0].id == nm]
+            if len(defs) == 1 and isinstance(defs[0], (ast.GeneratorExp, ast.ListComp, ast.Call)):
+                local_iters[nm] = defs[0]
+        if local_iters:
+            class _S(ast.NodeTransformer):
+                def visit_Name(self, n_):
+                    return _copy.deepcopy(local_iters[n_.id]) if n_.id in local_iters else n_
+            nest = [_copy.copy(l_) for l_ in nest]
+            for l_ in nest:
+                l_.iter = _S().visit(_copy.deepcopy(l_.iter))
+            size_names = {x.id for l_ in nest for x in ast.walk(l_.iter) if isinstance(x, ast.Name)} - \
+                {x.id for l_ in nest for x in ast.walk(l_.target) if isinstance(x, ast.Name)} - \
+                {x.id for l_ in nest for g_ in ast.walk(l_.iter) if isinstance(g_, ast.comprehension)
+                 for x in ast.walk(g_.target) if isinstance(x, ast.Name)} - set(iterspace.FUNCS)
         try:
             envs = iterspace.iterations(nest, {nm: 3 for nm in size_names})
         except iterspace.Unknown as e:
@@ -525,6 +553,8 @@ def run_a13(chk, A13, repo):
     f = am.functions.get('parse_model_record')
     if f is None:
         raise AnalysisError('parse_model_record not found')
+    f = repo.follow_delegation(f)       # the logic may live in a method of the record that the function hands over to
+    am = f.module
     # variables that remember the compartment with a given name / option
     by_name = {}
     for I in [x for x in ast.walk(f.node) if isinstance(x, ast.If)]:
